@@ -265,10 +265,14 @@ def xl_diff_parser(repo):
             continue
         if not name.startswith("_handle_"):
             fail("DiffParser: unexpected method " + name, f)
-        params = argnames(f)
-        if params[0] != "self":
+        params = [x.arg for x in f.args.args]
+        if not params or params[0] != "self":
             fail("DiffParser.%s: no self" % name, f)
         params = params[1:]
+        if f.args.kwonlyargs or f.args.kwarg or f.args.defaults or f.args.posonlyargs:
+            fail("DiffParser.%s: unexpected kind of parameter" % name, f)
+        more = f.args.vararg.arg if f.args.vararg else None      # def h(self, a, b, *more)
+        rest = False
         b = body_nodoc(f)
         if not (len(b) == 1 and isinstance(b[0], ast.Return) and isinstance(b[0].value, ast.Call)
                 and is_attr(b[0].value.func, "actions") and not b[0].value.keywords):
@@ -277,12 +281,22 @@ def xl_diff_parser(repo):
         for e in b[0].value.args:
             if isinstance(e, ast.Name) and e.id in params:
                 args.append((params.index(e.id), "ERaw"))
+            elif (more is not None and params and isinstance(e, ast.Call) and isinstance(e.func, ast.Attribute) and e.func.attr == "join"
+                  and isinstance(e.func.value, ast.Constant) and e.func.value.value == "," and len(e.args) == 1 and not e.keywords
+                  and ast.dump(e.args[0]) == ast.dump(ast.parse("(%s,) + %s" % (params[-1], more), mode="eval").body)):
+                # ",".join((last,) + more): the last named parameter together with the surplus ones, verbatim
+                args.append((len(params) - 1, "ERaw"))
+                rest = True
             elif (isinstance(e, ast.Call) and isinstance(e.func, ast.Name) and e.func.id in ("int", "loads")
                   and len(e.args) == 1 and not e.keywords and isinstance(e.args[0], ast.Name) and e.args[0].id in params):
                 args.append((params.index(e.args[0].id), "EInt" if e.func.id == "int" else "EJson"))
             else:
                 fail("DiffParser.%s: unknown argument expression" % name, e)
-        table.append((name[len("_handle_"):], b[0].value.func.attr, len(params), args))
+        if (more is not None) != rest:
+            fail("DiffParser.%s: *%s is not used as `\",\".join((last,) + %s)`" % (name, more, more), f)
+        if rest and sum(1 for i, _ in args if i == len(params) - 1) != 1:
+            fail("DiffParser.%s: the last parameter is used outside the join" % name, f)
+        table.append((name[len("_handle_"):], b[0].value.func.attr, len(params), args, rest))
     # `loads` and `int` must be the real ones
     imports = [st for st in t.body if isinstance(st, (ast.Import, ast.ImportFrom))]
     ok = any(isinstance(st, ast.ImportFrom) and st.module == "json" and any(a.name == "loads" and a.asname is None for a in st.names)
@@ -312,8 +326,9 @@ def emit_text_tables(out, sig, fmt, par):
         ["{| fe_ctor := %s; fe_keyword := %s; fe_fields := %s |}" % (
             cstr(c), cstr(k), clist(["(%s, %s)" % (cstr(fn), e) for fn, e in fl])) for c, k, fl in fmt["table"]]) + ".")
     L.append("Definition parse_table : list parse_entry := " + clist(
-        ["{| pe_method := %s; pe_ctor := %s; pe_nparams := %d; pe_args := %s |}" % (
-            cstr(m), cstr(c), n, clist(["(%d, %s)" % (i, e) for i, e in args])) for m, c, n, args in par["table"]]) + ".")
+        ["{| pe_method := %s; pe_ctor := %s; pe_nparams := %d; pe_args := %s; pe_rest := %s |}" % (
+            cstr(m), cstr(c), n, clist(["(%d, %s)" % (i, e) for i, e in args]), "true" if rest else "false")
+         for m, c, n, args, rest in par["table"]]) + ".")
     L.append("Definition tables : text_tables := {| tt_sig := actions_sig; tt_line_sep := fmt_line_sep; "
              "tt_pre := fmt_wrap_pre; tt_post := fmt_wrap_post; tt_field_sep := fmt_field_sep; "
              "tt_fmt := fmt_table; tt_parse := parse_table |}.")
